@@ -323,6 +323,30 @@ def cms_verify(sig_der: bytes, data: bytes, key: tuple, cert: Optional[x509util.
         return "malformed CMS: %s: %s" % (type(exc).__name__, exc)
 
 
+# ------------------------------------------------------------------------------------------- AES-CCM
+def ccm_decrypt(key: bytes, nonce: bytes, ct: bytes, tag: bytes) -> Optional[bytes]:
+    """AES-CCM decryption without associated data (SP 800-38C), None when the tag does not verify.
+
+    Small inputs go through vf.ref.aes.ccm_decrypt (pure Python AES); larger ones use the same construction written
+    for speed (whole-buffer XOR, block cipher of vf.ref.aes in its self-tested fast mode)."""
+    if len(ct) <= 2048:
+        return raes.ccm_decrypt(key, nonce, ct + tag, b"", len(tag))
+    a = raes.Aes(key, fast=True)
+    q = 15 - len(nonce)
+    nblk = (len(ct) + 15) // 16
+    head = bytes([q - 1]) + nonce
+    ks = b"".join(a.enc(head + i.to_bytes(q, "big")) for i in range(nblk + 1))
+    s0, stream = ks[:16], ks[16 : 16 + len(ct)]
+    pt = (int.from_bytes(ct, "big") ^ int.from_bytes(stream, "big")).to_bytes(len(ct), "big")
+    y = a.enc(bytes([(((len(tag) - 2) // 2) << 3) | (q - 1)]) + nonce + len(pt).to_bytes(q, "big"))
+    padded = pt + bytes(-len(pt) % 16)
+    frm = int.from_bytes
+    for i in range(0, len(padded), 16):
+        y = a.enc((frm(y, "big") ^ frm(padded[i : i + 16], "big")).to_bytes(16, "big"))
+    t = bytes(u ^ v for u, v in zip(y[: len(tag)], s0[: len(tag)]))
+    return pt if t == tag else None
+
+
 # ------------------------------------------------------------------------------------------- CSF
 class Csf:
     def __init__(self, data: bytes, off: int) -> None:
@@ -555,7 +579,7 @@ def run_csf(layout: Layout, dek: Optional[bytes] = None) -> Report:
                         if ct is None:
                             rec["why"] = "blocks outside the image"
                         else:
-                            pt = raes.ccm_decrypt(dek, nonce, ct + mac, b"", mac_len, fast=len(ct) > 1024)
+                            pt = ccm_decrypt(dek, nonce, ct, mac)
                             if pt is None:
                                 rec["why"] = "MAC mismatch"
                             else:
